@@ -78,6 +78,17 @@ type model struct {
 	// parsed field lists
 	globalIgnore, globalProcess [][]string
 	maskIgnore, maskProcess     [][][]string
+
+	// diag switches the model to the behaviour of a *known defect*; used only
+	// to name a disagreement that has already been established with diag unset.
+	diag diagHyp
+}
+
+// diagHyp: hypotheses about already known defects (see FINDINGS.md).
+type diagHyp struct {
+	FlipShadowed     map[string]bool // governing-list kind -> decisions below a shadowed ancestor entry are inverted
+	ReloadOnEmpty    bool            // a value emptied by one mask is re-read from the original by the next regexp mask
+	DetectOnlyAlways bool            // re with empty groups: applied without consulting the regexp
 }
 
 func splitPath(s string) []string { return strings.Split(s, ".") }
@@ -149,7 +160,60 @@ func (m *model) governing(i int) (list [][]string, kind string) {
 	return nil, "none"
 }
 
+func hasPrefixPath(p, path []string) bool {
+	if len(p) > len(path) {
+		return false
+	}
+	for i := range p {
+		if p[i] != path[i] {
+			return false
+		}
+	}
+	return true
+}
+
+// shadowed (diagnosis): mask i's governing list covers `path` through an
+// entry E that is a proper ancestor of path, and some *other* list (another
+// mask's or the plugin's) names a path strictly below E.
+func (m *model) shadowed(i int, path []string) bool {
+	list, kind := m.governing(i)
+	if kind == "none" {
+		return false
+	}
+	var others [][]string
+	add := func(l [][]string, same bool) {
+		if !same {
+			others = append(others, l...)
+		}
+	}
+	for j := range m.masks {
+		add(m.maskIgnore[j], j == i && kind == "mask-ignore")
+		add(m.maskProcess[j], j == i && kind == "mask-process")
+	}
+	add(m.globalIgnore, kind == "global-ignore")
+	add(m.globalProcess, kind == "global-process")
+	for _, e := range list {
+		if !hasPrefixPath(e, path) || len(e) == len(path) {
+			continue
+		}
+		for _, o := range others {
+			if len(o) > len(e) && hasPrefixPath(e, o) {
+				return true
+			}
+		}
+	}
+	return false
+}
+
 func (m *model) selected(i int, path []string) bool {
+	s := m.selectedDoc(i, path)
+	if _, kind := m.governing(i); m.diag.FlipShadowed[kind] && m.shadowed(i, path) {
+		return !s
+	}
+	return s
+}
+
+func (m *model) selectedDoc(i int, path []string) bool {
 	list, kind := m.governing(i)
 	switch kind {
 	case "mask-ignore", "global-ignore":
@@ -370,8 +434,7 @@ func classifyShape(groups []int, idx [][]int) (walk []span, shape string, lastUn
 	return walk, shape, lastUnset
 }
 
-// flip (diagnosis only) inverts the field-list decision for the listed masks.
-func (m *model) evalLeaf(path []string, kind byte, orig string, v variant, flip map[int]bool) *leafEval {
+func (m *model) evalLeaf(path []string, kind byte, orig string, v variant) *leafEval {
 	le := &leafEval{Path: path, Kind: kind, Orig: orig, Final: orig}
 	if orig == "" && v.SkipEmpty {
 		return le
@@ -380,7 +443,7 @@ func (m *model) evalLeaf(path []string, kind byte, orig string, v variant, flip 
 	for i := range m.masks {
 		cm := &m.masks[i]
 		st := stepEval{Mask: i, In: run, Out: run, Exact: true}
-		st.Selected = m.selected(i, path) != flip[i]
+		st.Selected = m.selected(i, path)
 		if !st.Selected {
 			le.Steps = append(le.Steps, st)
 			continue
@@ -404,6 +467,15 @@ func (m *model) evalLeaf(path []string, kind byte, orig string, v variant, flip 
 			st.Exact = false
 			le.Steps = append(le.Steps, st)
 			continue
+		}
+		if m.diag.DetectOnlyAlways && len(cm.groups) == 0 {
+			st.Applied = true
+			le.Steps = append(le.Steps, st)
+			continue
+		}
+		if m.diag.ReloadOnEmpty && run == "" && len(cm.groups) > 0 {
+			run = orig
+			st.In, st.Out = run, run
 		}
 		st.Regex = true
 		idx := cm.re.FindAllStringSubmatchIndex(run, -1)
@@ -465,7 +537,7 @@ func (m *model) expect(in *jnode, v variant) *eventExpect {
 	var leaves []leaf
 	collectLeaves(ex.Tree, nil, &leaves)
 	for _, lf := range leaves {
-		le := m.evalLeaf(lf.Path, lf.Node.Kind, lf.Node.Text, v, nil)
+		le := m.evalLeaf(lf.Path, lf.Node.Kind, lf.Node.Text, v)
 		ex.Leaves = append(ex.Leaves, le)
 		ex.LeafOf[lf.Node] = le
 		for _, st := range le.Steps {
